@@ -165,7 +165,10 @@ def run(env, rep):
                 if not call:
                     continue
                 arg = call[0][2][0] if call[0][2] else ""
-                if "slice" in arg:
+                if "slice" in arg and a != 17:
+                    ok = False
+                    detail = "; a prefix is stripped from type-%d payloads: only type 17 (AMF3 command) carries the one-byte format marker that may be skipped" % a
+                elif "slice" in arg:
                     tests = [t for t in s if t[0] == "when" and "elem" in t[1] and (" Eq 0" in t[1] or t[2] == "0")]
                     # or, however the test was written: the state at the cutting call knows that the first byte is 0
                     known0 = [t for t in s if t[0] == "cprobe" and t[1][0] == "first-byte" and t[1][1] == t[1][2] == 0]
@@ -394,4 +397,4 @@ def run(env, rep):
     if wants(rep, "C13.R4"):
         from . import C12, C04
         C12.run(env, PrefixReport(rep, "C12.", "C13.R4.", only=("C12.R1", "C12.R2", "C12.R4")))
-        C04.run(env, PrefixReport(rep, "C04.", "C13.R4.", only=("C04.R3",)))
+        C04.run(env, PrefixReport(rep, "C04.", "C13.R4.", only=("C04.R3", "C04.R4")))
